@@ -46,6 +46,18 @@ def case_name(case):
     return "%s|%s|%s" % (base, case.get("variant"), case.get("cfg"))
 
 
+def variant_class(case):
+    """Layout class of a case, part of every fix-run mechanism key: 'plain', 'gen', or the sorted set of
+    transform kinds applied (a known finding of a rule under one layout class does not hide the same rule
+    failing under another)."""
+    if "gen" in case:
+        return "gen"
+    v = case.get("variant")
+    if not v:
+        return "plain"
+    return "+".join(sorted({k for k, _ in v}))
+
+
 def setup(case, text=None):
     """Returns (oFile, oRules, a, oConfig) or a status dict."""
     from vsg import exceptions
@@ -162,7 +174,8 @@ def universe(tier, seed, n_quick, n_thorough, variants=True, gen=True, corpus_fi
     """The case universe is FINITE and enumerable: corpus file x (pool entries paired with that file by
     hash) x (no variant | kind x k<3 | two fixed chains) + generated designs x 3 pool entries.  The
     quick universe is a subset of the thorough one.  Every run covers the deterministic base (every
-    corpus file, unmodified, under `jcl` and under its first hashed pool entry; thorough: under all six); the
+    corpus file, unmodified, under `jcl` and under its first hashed pool entry (thorough: under all six),
+    and with a comment at every line end under `jcl`); the
     seed selects the rest.  The whole universe was swept during development (tools/sweep.py), so
     that every mechanism by which the pinned tree violates a property is a listed known finding."""
     rng = random.Random(seed)
@@ -186,6 +199,8 @@ def universe(tier, seed, n_quick, n_thorough, variants=True, gen=True, corpus_fi
         cf = file_cfgs(f, ncfg)
         for cfg in cf[: (2 if tier == "quick" else ncfg)]:
             add({"file": f, "cfg": cfg})
+        # hostile base: a comment at EVERY line end of every file
+        add({"file": f, "cfg": "jcl", "variant": [["allcomment", 0]]})
     if full:
         for f in corpus:
             for c in elements_for_file(f, tier):
